@@ -564,6 +564,20 @@ def gen_omen_facts(root, report):
     report['optimizer_calls'] = [list(c[:4]) for c in calls]
     body = ',\n   '.join('(' + ', '.join([lean_str(c[0]), lean_str(c[1]), lean_str(c[2]), '[' + ', '.join(lean_str(a) for a in c[3]) + ']']) + ')'
                          for c in calls)
+    # the end of `_calc_level` (lib_trainer/omen/smoothing.py): everything after the statement that takes the floor of the logarithm,
+    # and the default of `max_level` - the clamp is the only thing the theorems use of the smoothing function
+    stree = ast.parse(open(os.path.join(root, 'lib_trainer/omen/smoothing.py'), encoding='utf-8').read())
+    cl = next((f for f in stree.body if isinstance(f, ast.FunctionDef) and f.name == '_calc_level'), None)
+    if cl is None:
+        raise TranslateError('_calc_level not found')
+    stmts = [st for st in cl.body if not (isinstance(st, ast.Expr) and isinstance(st.value, ast.Constant))]
+    k = next((i for i, st in enumerate(stmts) if 'math.floor' in ast.unparse(st)), None)
+    if k is None:
+        raise TranslateError('_calc_level: no floor statement')
+    tail = [' '.join(ast.unparse(st).split()) for st in stmts[k + 1:]]
+    defaults = dict(zip([a.arg for a in cl.args.args][len(cl.args.args) - len(cl.args.defaults):], [ast.unparse(d) for d in cl.args.defaults]))
+    report['calc_level_tail'] = tail
+    calc_tail = ', '.join(lean_str(t) for t in tail)
     return f'''/-! GENERATED by harness/translate.py (tables.py) from lib_guesser/omen -- do not edit.
 Every call on the shared memo table (`self.optimizer.<method>(...)`): file, enclosing function, method, first three arguments. -/
 namespace Pcfg.Generated.OmenFacts
@@ -575,6 +589,11 @@ def optimizerCalls : List (String × String × String × List String) :=
 the function runs, `default-arg` / `module` = one object for the whole process -/
 def optimizerSites : List (String × String × String) :=
   [{', '.join('(' + ', '.join(lean_str(x) for x in t3) + ')' for t3 in opt_sites)}]
+
+/-- the statements of `_calc_level` after the one that takes the floor of the logarithm, and the default of its `max_level` -/
+def calcLevelTail : List String := [{calc_tail}]
+
+def calcLevelMaxDefault : String := {lean_str(defaults.get('max_level', '?'))}
 
 end Pcfg.Generated.OmenFacts
 '''
